@@ -108,6 +108,7 @@ static void ledger_oracle(const struct mstate *m, const char *opname) {
     if (ledger_live() != nlive(m)) { snprintf(k, sizeof k, "c15:ledger:%s", opname); BADV(k, "after %s: %d blocks live but %d seeds live", opname, ledger_live(), nlive(m)); }
     if (E.err_foreign_free) { snprintf(k, sizeof k, "c15:foreign-free:%s", opname); BADV(k, "%s passed an unknown or already freed pointer to free", opname); }
     if (E.err_free_null) { snprintf(k, sizeof k, "c15:free-null:%s", opname); BADV(k, "%s called free(NULL)", opname); }
+    if (E.err_free_unwiped && !E.err_free_dirty) { snprintf(k, sizeof k, "c18:wipe-source:%s", opname); BADV(k, "%s released a block that holds only zero bytes although the injected wipe function was never applied to it: the library cleared it by other means", opname); }
     if (E.err_free_dirty || E.err_free_unwiped) { snprintf(k, sizeof k, "c16:free-unwiped:%s", opname); BADV(k, "%s released a seed block that was not wiped through the injected memzero (dirty=%d unwiped=%d)", opname, E.err_free_dirty, E.err_free_unwiped); }
 }
 
